@@ -169,7 +169,10 @@ func (p *PX) byteSeqOf(v ssa.Value, fr *pxFrame, st *pxState) *ByteSeq {
 	case *ssa.UnOp:
 		if x.Op == token.MUL {
 			if al, ok := x.X.(*ssa.Alloc); ok {
-				return st.bseq[p.reg(fr, al)+"*"]
+				if bs := st.bseq[p.reg(fr, al)+"*"]; bs != nil {
+					return bs
+				}
+				return nilCellBytes(st, p.reg(fr, al)+"*", x.Type())
 			}
 			if ia, ok := x.X.(*ssa.IndexAddr); ok && isByteSlice(x.Type()) && !isByteSlice(ia.X.Type()) {
 				// an element of a [][]byte whose cell was filled on this path
@@ -178,7 +181,10 @@ func (p *PX) byteSeqOf(v ssa.Value, fr *pxFrame, st *pxState) *ByteSeq {
 			if _, ok := x.X.(*ssa.FreeVar); ok {
 				// a variable captured by a closure: the cell of the frame that made it
 				if cell, ok := p.cellOf(x.X, fr); ok {
-					return st.bseq[cell]
+					if bs := st.bseq[cell]; bs != nil {
+						return bs
+					}
+					return nilCellBytes(st, cell, x.Type())
 				}
 			}
 			if g, ok := x.X.(*ssa.Global); ok {
@@ -263,6 +269,8 @@ func cloneBytes(m map[string]*ByteSeq) map[string]*ByteSeq {
 // byteCall models calls that create or fill byte sequences.
 func (p *PX) byteCall(x *ssa.Call, fr *pxFrame, st *pxState) {
 	key := p.reg(fr, x)
+	// the operands in the order of the callee's parameters (receiver first)
+	args := x.Call.Args
 	if bi, ok := x.Call.Value.(*ssa.Builtin); ok {
 		switch bi.Name() {
 		case "append":
@@ -330,6 +338,22 @@ func (p *PX) byteCall(x *ssa.Call, fr *pxFrame, st *pxState) {
 		return
 	}
 	sc := x.Call.StaticCallee()
+	if sc == nil || len(sc.FreeVars) > 0 {
+		// a library function called through a function value known on the path (the
+		// method value `put16 := binary.BigEndian.PutUint16`, pxlibfv.go)
+		if lf, recv := p.libFuncValue(&x.Call, fr, st); lf != nil {
+			sc = lf
+			if recv != nil {
+				args = append([]ssa.Value{nil}, args...)
+			}
+		} else if fn, _, _ := p.funcValueCallee(x, fr, st); fn != nil && p.w.inPkg(fn) && fn.Blocks != nil {
+			// a package function or closure known on the path (`conv(buf)` with conv a
+			// function literal handed to the maker of this closure): the same call as the
+			// static one — package code is followed or summarised, it does not scribble
+			// over the buffers it is handed out of sight
+			return
+		}
+	}
 	if sc == nil {
 		// a dynamic call may fill the buffers it is handed (io.Reader.Read); an
 		// io.Writer's Write must not modify its argument (contract of io.Writer)
@@ -347,9 +371,9 @@ func (p *PX) byteCall(x *ssa.Call, fr *pxFrame, st *pxState) {
 			p.clobberByteArgs(x, fr, st)
 		}
 	case "bytes.NewBuffer":
-		init := p.byteSeqOf(x.Call.Args[0], fr, st)
+		init := p.byteSeqOf(args[0], fr, st)
 		if init == nil {
-			if isNilConst(x.Call.Args[0]) {
+			if isNilConst(args[0]) {
 				init = &ByteSeq{}
 			} else {
 				return
@@ -357,29 +381,29 @@ func (p *PX) byteCall(x *ssa.Call, fr *pxFrame, st *pxState) {
 		}
 		st.bseq[key] = &ByteSeq{Oct: append([]*Term(nil), init.Oct...)}
 	case "(*bytes.Buffer).WriteByte", "(*strings.Builder).WriteByte":
-		if buf := p.bufferOf(x.Call.Args[0], fr, st); buf != nil && !buf.Open {
-			buf.Oct = append(buf.Oct, p.term(x.Call.Args[1], fr, st))
+		if buf := p.bufferOf(args[0], fr, st); buf != nil && !buf.Open {
+			buf.Oct = append(buf.Oct, p.term(args[1], fr, st))
 		}
 	case "(*bytes.Buffer).Write", "(*bytes.Buffer).WriteString", "(*strings.Builder).Write", "(*strings.Builder).WriteString":
-		if buf := p.bufferOf(x.Call.Args[0], fr, st); buf != nil && !buf.Open {
-			if add := p.byteSeqOf(x.Call.Args[1], fr, st); add != nil && !add.Open {
+		if buf := p.bufferOf(args[0], fr, st); buf != nil && !buf.Open {
+			if add := p.byteSeqOf(args[1], fr, st); add != nil && !add.Open {
 				buf.Oct = append(buf.Oct, add.Oct...)
 			} else {
 				buf.Open = true
-				buf.Pay = append(buf.Pay, x.Call.Args[1])
+				buf.Pay = append(buf.Pay, args[1])
 			}
 		} else if buf != nil {
-			buf.Pay = append(buf.Pay, x.Call.Args[1])
+			buf.Pay = append(buf.Pay, args[1])
 		}
 	case "(*bytes.Buffer).Bytes", "(*bytes.Buffer).String", "(*strings.Builder).String":
 		// (the text accumulated so far; a string result is looked up by the call's register)
-		if buf := p.bufferOf(x.Call.Args[0], fr, st); buf != nil {
+		if buf := p.bufferOf(args[0], fr, st); buf != nil {
 			st.bseq[key] = &ByteSeq{Oct: append([]*Term(nil), buf.Oct...), Open: buf.Open, Pay: buf.Pay}
 		}
 	case "io.ReadFull", "io.ReadAtLeast":
 		// the buffer is overwritten with octets of the stream: unknown values
 		if len(x.Call.Args) >= 2 {
-			if dst := p.byteSeqOf(x.Call.Args[1], fr, st); dst != nil {
+			if dst := p.byteSeqOf(args[1], fr, st); dst != nil {
 				// when the number of octets consumed so far on this path is known the
 				// octets are named by their position in the stream (<in@k>), so that a
 				// rule can relate them to what an encoder wrote at that position
@@ -399,18 +423,18 @@ func (p *PX) byteCall(x *ssa.Call, fr *pxFrame, st *pxState) {
 			}
 		}
 	case "(encoding/binary.bigEndian).PutUint16", "(binary.bigEndian).PutUint16":
-		p.putUint(x, fr, st, 2)
+		p.putUint(x, args, fr, st, 2)
 	case "(encoding/binary.bigEndian).PutUint32", "(binary.bigEndian).PutUint32":
-		p.putUint(x, fr, st, 4)
+		p.putUint(x, args, fr, st, 4)
 	case "(encoding/binary.bigEndian).PutUint64", "(binary.bigEndian).PutUint64":
-		p.putUint(x, fr, st, 8)
+		p.putUint(x, args, fr, st, 8)
 	case "(encoding/binary.bigEndian).AppendUint16", "(binary.bigEndian).AppendUint16", "(encoding/binary.bigEndian).AppendUint32", "(binary.bigEndian).AppendUint32", "(encoding/binary.bigEndian).AppendUint64", "(binary.bigEndian).AppendUint64":
 		n := map[byte]int{'6': 2, '2': 4, '4': 8}[name[len(name)-1]]
-		base := p.byteSeqOf(x.Call.Args[1], fr, st)
+		base := p.byteSeqOf(args[1], fr, st)
 		if base == nil {
 			return
 		}
-		v := p.term(x.Call.Args[2], fr, st)
+		v := p.term(args[2], fr, st)
 		if base.Open {
 			parts, ok := base.partsOf(p.w.instrPos(x))
 			if !ok {
@@ -454,9 +478,8 @@ func windowTerm(v *Term, shift int) *Term {
 	return &Term{K: TConv, A: inner, T: types.Typ[types.Uint8], key: "conv:uint8(" + inner.key + ")"}
 }
 
-func (p *PX) putUint(x *ssa.Call, fr *pxFrame, st *pxState, n int) {
-	// method value receiver is arg 0 (the bigEndian value), then the slice, then the integer
-	args := x.Call.Args
+func (p *PX) putUint(x *ssa.Call, args []ssa.Value, fr *pxFrame, st *pxState, n int) {
+	// the receiver is arg 0 (the bigEndian value), then the slice, then the integer
 	if len(args) != 3 {
 		return
 	}
@@ -549,4 +572,17 @@ func byteOrderGetter(sc *ssa.Function) bool {
 		return true
 	}
 	return false
+}
+
+// nilCellBytes: a []byte variable that still holds the zero value it was
+// declared with (`var out []byte` … `out = append(out, …)`, also when the
+// append sits in a closure that captured the variable) is the empty sequence.
+func nilCellBytes(st *pxState, cell string, t types.Type) *ByteSeq {
+	if !isByteSlice(t) {
+		return nil
+	}
+	if v, ok := st.vals[cell]; ok && v != nil && v.K == TLeaf && strings.HasPrefix(v.key, "nil:") {
+		return &ByteSeq{}
+	}
+	return nil
 }
